@@ -385,14 +385,33 @@ def g_mv_consumers(ctx):
     return ok, "callers: %s; from_env files variables into maps" % sorted(callers)
 
 
+def _agg_roots(prog, f, op, depth=0):
+    """origins of an operand, looking into tuples/struct literals"""
+    out = []
+    if op[0] == "k" or depth > 5:
+        return out
+    for o in f.trace_operand(op):
+        if o.kind == "agg":
+            for sub in o.ref[2][2]:
+                out += _agg_roots(prog, f, sub, depth + 1)
+        else:
+            out.append(o)
+    return out
+
+
 def r2_into_result(prog):
     f = prog.one_fn(r"^ast_grep_config::combined::ScanResultInner::<'t, D>::into_result$")
     # every use of self.unused_suppressions that reaches the result is followed by a sort on the receiving vector
     sorts = [c for c in f.calls if c.name.startswith("sort")]
     ext = [c for c in f.calls if c.name == "extend"]
     pushes = [c for c in f.calls if c.name == "push"]
+    def on_suppr(c):
+        return any(o.kind == "param" and "unused_suppressions" in field_path(o.proj) for o in deep_roots(prog, f, c.args[0], TRANSPARENT | {"deref_mut", "as_mut_slice", "as_mut"}))
     ok1 = any(f.dominates(e.bb, s.bb) for e in ext for s in sorts)
-    ok2 = any(f.dominates(s.bb, p.bb) for p in pushes for s in sorts)
+    # plain branch: the vector that is pushed as the unused-suppression group is itself sorted first (the nodes come out of a HashMap)
+    sup_pushes = [p_ for p_ in pushes if len(p_.args) > 1 and any(o.kind == "param" and "unused_suppressions" in field_path(o.proj)
+                                                                  for x in [p_.args[1]] for o in _agg_roots(prog, f, x))]
+    ok2 = bool(sup_pushes) and all(any(on_suppr(s) and f.dominates(s.bb, p_.bb) for s in sorts) for p_ in sup_pushes)
     return ok1 and ok2 and len(sorts) >= 2, "unused suppressions are sorted by start offset on the separate_fix branch (after extend) and on the plain branch (before push): %s/%s" % (ok1, ok2)
 
 
